@@ -116,7 +116,9 @@ NAMES = ["a", "x", "_0"]
 def refs_ok(case):
     """argument-dependent validity: every reference denotes a supplied argument"""
     for ph in case["phs"]:
-        for a in (ph["arg"], ph["spec"]["width"]["arg"], ph["spec"]["prec"]["arg"]):
+        # a literal count (`{:21}`) is a number, not a reference: only `{:1$}` / `{:.1$}` denote arguments
+        refs = [ph["arg"]] + [ph["spec"][c]["arg"] for c in ("width", "prec") if ph["spec"][c]["k"] == "param"]
+        for a in refs:
             if a["k"] == "int" and int(real(a["txt"])) >= NPOS:
                 return False
     for r in case["res"]:
